@@ -21,6 +21,7 @@ func init() {
 			ruleConcatRank(c, "R2")
 			ruleRetroactive(c, "R3")
 			ruleWrapSites(c, "R4")
+			ruleExhaustiveWalks(c, "R3w", []string{"tree.(*node).applyMiddleware"}, "the retroactive application visits every node")
 		},
 	})
 }
